@@ -4,6 +4,7 @@ import (
 	"fmt"
 	"strings"
 
+	mod "github.com/craterdog/go-collection-framework/v4"
 	cdc "github.com/craterdog/go-collection-framework/v4/cdcn"
 	col "github.com/craterdog/go-collection-framework/v4/collection"
 
@@ -24,12 +25,20 @@ type QProgram struct {
 	// takes may legitimately wait for ever for values that were discarded, but
 	// the RemoveAll call itself must always return.
 	StarvationOK bool
+	// Form / Initial: the queue is built by a constructor from Initial values
+	// ("array", "sequence", "module-array", "module-sequence"); its capacity is
+	// then whatever GetCapacity() reports ("" = MakeWithCapacity(Cap)).
+	Form    string
+	Initial int
 }
 
 func (p QProgram) String() string {
 	s := fmt.Sprintf("cap=%d producers=%v consumers=%v closer=%v observers=%d removeAll=%v", p.Cap, p.Producers, p.Consumers, p.Closer, p.Observers, p.RemoveAll)
 	if p.StarvationOK {
 		s += " (no closer: consumers may starve)"
+	}
+	if p.Form != "" {
+		s += fmt.Sprintf(" queue built by %s from %d values (cap is ignored)", p.Form, p.Initial)
 	}
 	return s
 }
@@ -43,6 +52,11 @@ func GenQProgram(r *core.Rng, allowRemoveAll bool) QProgram {
 		n := r.Range(1, 3)
 		p.Producers = append(p.Producers, n)
 		total += n
+	}
+	if r.Chance(1, 5) {
+		p.Form = []string{"array", "sequence", "module-array", "module-sequence"}[r.Intn(4)]
+		p.Initial = []int{0, 1, 2, 3, 5, 15, 16, 17, 20, 33, 40}[r.Intn(11)]
+		total += p.Initial
 	}
 	nc := r.Range(1, 3)
 	p.RemoveAll = allowRemoveAll && r.Chance(1, 3)
@@ -82,6 +96,17 @@ type QResult struct {
 	FinalEmp  bool
 	Panic     string
 	Program   QProgram
+	// Cap is the capacity the checkers use: the program's, or GetCapacity() of a constructed queue
+	Cap     int
+	CtorBad string
+}
+
+// Check runs the offline checkers of C04 on the result.
+func (res *QResult) Check() []Finding {
+	if res.CtorBad != "" {
+		return []Finding{{"constructed/size-exceeds-capacity", res.CtorBad}}
+	}
+	return CheckQueueHistory(res.Hist, res.Cap, res.Final, res.FinalSize, res.FinalEmp)
 }
 
 // RunQProgram executes the program under the controlled scheduler.
@@ -99,8 +124,34 @@ func RunQProgramBounded(rng *core.Rng, p QProgram, forced []int, systematic bool
 	s.Forced, s.Systematic, s.MaxPreempt = forced, systematic, maxPreempt
 	defer s.Deactivate()
 	h := NewHistory(s.Tick)
-	q := col.Queue[string](notation).MakeWithCapacity(uint(p.Cap))
-	res := &QResult{Hist: h, Sched: s, Program: p}
+	var q col.QueueLike[string]
+	res := &QResult{Hist: h, Sched: s, Program: p, Cap: p.Cap}
+	if p.Form == "" {
+		q = col.Queue[string](notation).MakeWithCapacity(uint(p.Cap))
+	} else {
+		// built by the set-up goroutine, which the scheduler lets pass its hooks freely
+		vals := make([]string, p.Initial)
+		for i := range vals {
+			vals[i] = fmt.Sprintf("init.%d", i)
+		}
+		switch p.Form {
+		case "array":
+			q = col.Queue[string](notation).MakeFromArray(vals)
+		case "sequence":
+			q = col.Queue[string](notation).MakeFromSequence(col.List[string](notation).MakeFromArray(vals))
+		case "module-array":
+			q = mod.Queue[string](vals)
+		default:
+			q = mod.Queue[string](col.List[string](notation).MakeFromArray(vals))
+		}
+		for _, v := range vals {
+			h.RetOp(h.CallOp("init", "add", v))
+		}
+		res.Cap = int(q.GetCapacity())
+		if n := q.GetSize(); n > res.Cap || n != p.Initial {
+			res.CtorBad = fmt.Sprintf("a queue built by the %s constructor from %d values reports GetSize()=%d and GetCapacity()=%d", p.Form, p.Initial, n, res.Cap)
+		}
+	}
 	clients := 0
 	var panicMsg string
 	start := func(role string, body func()) {
